@@ -106,6 +106,21 @@ fn body_matches(x: &Sx, sk: &Sk) -> Result<(), String> {
 }
 
 pub fn judge(tree: &E) -> Verdict {
+    // the same expression written as text must meet the same fate (the refusal must not depend on
+    // how the tree was obtained)
+    if let Some(text) = crate::render::canonical(tree) {
+        if stable_hash(&text) % 4 == 0 {
+            if let Ok(Ok((opts, x))) = catch(|| lipe_find_parser::parse(&text)) {
+                let has_unsup = !unsupported_names(tree).is_empty();
+                match catch(|| lipe_find_parser::compile(&x, &opts).map(|c| c.scheme("/"))) {
+                    Err(p) => return Verdict::Fail(format!("compile panicked on the parsed form of {text:?}: {p}")),
+                    Ok(Ok(prog)) if has_unsup => return Verdict::Fail(format!("{text:?} contains unsupported constructs {:?} but its parsed form compiled to\n{prog}", unsupported_names(tree))),
+                    Ok(Err(e)) if !has_unsup => return Verdict::Fail(format!("{text:?} is made only of supported constructs but its parsed form fails to compile: {e}")),
+                    _ => {}
+                }
+            }
+        }
+    }
     let unsup = unsupported_names(tree);
     let first_leaf_unsup = tree.leaves().first().map(|l| !unsupported_names(l).is_empty()).unwrap_or(false);
     match policy::compile_tree(tree, None, "/") {
